@@ -321,6 +321,11 @@ seq_round(Fifo &f, int round)
 		zs.b      = n;
 		zs.a      = n - (k->sbuf ? std::min((size_t) f.s, n) : 0);
 		zs.exact  = exact && refused;
+		// a receive buffer that grows lets queued messages move forward out of
+		// the send buffer before it is resized: its content is then only
+		// bounded by the window, not equal to it
+		if (doR && zr.newcap > zr.oldcap)
+			zs.exact = false;
 		if (doR && zs.a < zr.b) {
 			// windows overlap: cannot attribute; resize one side only
 			zs.on = false;
@@ -336,6 +341,8 @@ seq_round(Fifo &f, int round)
 		MUST(nng_socket_get_int(f.R, NNG_OPT_RECVBUF, &chk));
 		if (chk != zr.newcap) // the statement does not cover the option's read-back
 			sim_probe("c18_depth_readback_differs");
+		if (doS)
+			sim_quiesce(1000000); // let whatever the resize released settle first
 	}
 	if (doS) {
 		MUST(nng_socket_set_int(f.S, NNG_OPT_SENDBUF, zs.newcap));
